@@ -142,6 +142,15 @@ R = {
     "det_shared_state_layout": named("det_shared_state_layout", extra.det_shared_state, ["graph_layout:vespr_layout"], "DET.shared-state", "quick", 5),
     "own_mutable_defaults_sampler": named("own_mutable_defaults_sampler", own.own_mutable_defaults, "quick", ("sample",), 2),
     "null_guard_layout": tiered(keys.null_guard_layout),
+    "det_shared_state_reader": named("det_shared_state_reader", extra.det_shared_state,
+                                     ["read_cgsmiles:read_cgsmiles", "read_fragments:read_fragments", "read_fragments:strip_bonding_descriptors",
+                                      "dialects:_parse_dialect_string", "dialects:check_and_cast_types"], "DET.shared-state", "quick", 8),
+    "det_loop_state_reader": named("det_loop_state_reader", da.det_loop_state, ["read_cgsmiles:read_cgsmiles", "read_cgsmiles:_expand_branch"]),
+    "det_loop_state_tok": named("det_loop_state_tok", da.det_loop_state, ["read_fragments:strip_bonding_descriptors", "read_fragments:collect_ring_number"]),
+    "det_loop_state_writer": named("det_loop_state_writer", da.det_loop_state, ["write_cgsmiles:write_graph", "write_cgsmiles:format_bonding"]),
+    "det_loop_state_resolver": named("det_loop_state_resolver", da.det_loop_state, ["resolve:MoleculeResolver.edges_from_bonding_descrpt", "resolve:MoleculeResolver.squash_atoms",
+                                                                                  "resolve:match_bonding_descriptors", "resolve:MoleculeResolver.resolve_disconnected_molecule"]),
+    "det_loop_state_sampler": named("det_loop_state_sampler", da.det_loop_state, ["sample:MoleculeSampler.sample", "sample:MoleculeSampler.add_fragment"]),
     "det_shared_state_resolver": named("det_shared_state_resolver", extra.det_shared_state, prov.RESOLVER_ROOTS),
 }
 
@@ -171,36 +180,36 @@ prop("C02", ["key_fragid", "prov_annotate_lookup", "ord_resolve_annotate", "tab_
      "merge_graphs copies all nodes, edges and attributes of a template",
      "isomorphism of each block with its template after squashing and hydrogen completion; content of 'mapping'",
      floors={"ORD.complete-loops": 19, "PAIR.squash-membership": 1, "KEY.K1-fragid": 1, "PROV.annotate-lookup": 3, "ORD.resolve-annotate": 6, "TAB.copy_attrs": 3, "PROV.h-inherit": 3, "PROV.copy-complete": 5})
-prop("C03", ["tt_compatible", "prov_matcher_shape", "who_may_bond", "prov_matcher_args", "trip_bond_loop",
+prop("C03", ["det_loop_state_resolver", "tt_compatible", "prov_matcher_shape", "who_may_bond", "prov_matcher_args", "trip_bond_loop",
              "pair_resolver_consume", "prov_bond_edge", "sent_order_zero", "ord_complete_loops", "det_shared_state_resolver", "prov_option_forwarding"],
      "compatibility truth table over 320 abstract states; matcher shape; sole bond site; matcher arguments are the two ends of the iterated base-graph edge; "
      "loop trip count = edge order from 0; consume-on-use pairing on every path; provenance of endpoints, recorded pair and order",
      "'exactly that many' bonds depends on first-match search order over runtime lists",
-     floors={"PROV.option-forwarding": 8, "ORD.complete-loops": 19, "SENT.order-zero": 20, "TT.compatible": 1, "PROV.matcher-shape": 4, "OWN.sole-bond-site": 1, "PROV.matcher-args": 1,
+     floors={"DET.loop-state": 4, "PROV.option-forwarding": 8, "ORD.complete-loops": 19, "SENT.order-zero": 20, "TT.compatible": 1, "PROV.matcher-shape": 4, "OWN.sole-bond-site": 1, "PROV.matcher-args": 1,
              "PROV.legacy-forwarded": 2, "TRIP.bond-loop": 3, "PAIR.resolver-consume": 3, "PROV.bond-edge": 2, "PROV.bond-order": 1})
-prop("C04", ["ring_marker_text", "exc_raise_inventory", "tab_reader_symbols", "da_reader", "da_globals_reader", "sib_ring_handlers", "prov_node_attributes", "sent_order_zero", "prov_after_branch_order"],
+prop("C04", ["det_loop_state_reader", "det_shared_state_reader", "ring_marker_text", "exc_raise_inventory", "tab_reader_symbols", "da_reader", "da_globals_reader", "sib_ring_handlers", "prov_node_attributes", "sent_order_zero", "prov_after_branch_order"],
      "a sliver: the reader's symbol table equals the documented one and its guard admits every symbol; no possibly-unbound local on a feasible path of the "
      "reader functions; the %nn and digit ring handlers perform the same open/close protocol; a ring bond joins opening and closing node with the order "
      "written at the opening marker and the pending ring order is reset after every marker; node attributes come from the node's own text",
      "whether nodes, edges and orders are the ones the grammar denotes: index arithmetic over the pattern string (simultaneous branch closings, "
      "unbounded %nn digits) has no structural witness in reach",
-     floors={"TOK.ring-marker-text": 1, "EXC.raise-inventory": 6, "PROV.after-branch-order": 2, "SENT.order-zero": 20, "TAB.reader-symbols": 2, "DA.reader": 5, "SIB.S2-ring-handlers": 3, "PROV.ring-edges": 5, "PROV.node-attributes": 4})
-prop("C05", ["da_reader", "trip_multiplier", "sib_multiplier_scans", "sent_anchor_key", "sent_order_zero", "prov_after_branch_order"],
+     floors={"DET.loop-state": 2, "DET.shared-state": 8, "TOK.ring-marker-text": 1, "EXC.raise-inventory": 6, "PROV.after-branch-order": 2, "SENT.order-zero": 20, "TAB.reader-symbols": 2, "DA.reader": 5, "SIB.S2-ring-handlers": 3, "PROV.ring-edges": 5, "PROV.node-attributes": 4})
+prop("C05", ["det_loop_state_reader", "da_reader", "trip_multiplier", "sib_multiplier_scans", "sent_anchor_key", "sent_order_zero", "prov_after_branch_order"],
      "definite assignment in the branch expansion block (base_anchor); trip counts of node loop, recipe entries, _expand_branch and the branch loop "
      "(multiplier - 1); both multiplier number scans stop at the same token set including the order symbols",
      "isomorphism of shorthand and longhand for nested anchors (prev_node + offset arithmetic), bond orders between copies",
-     floors={"PROV.after-branch-order": 2, "SENT.anchor-key": 1, "DA.reader": 5, "TRIP.multiplier": 4, "SIB.S3-multiplier-scan": 2})
+     floors={"DET.loop-state": 2, "PROV.after-branch-order": 2, "SENT.anchor-key": 1, "DA.reader": 5, "TRIP.multiplier": 4, "SIB.S3-multiplier-scan": 2})
 prop("C06", ["sib_atomistic_level", "ord_resolve_handover", "sib_drivers", "ord_resolve_phases", "prov_squash", "prov_bond_edge", "own_fresh_fragment", "prov_option_forwarding"],
      "reader and resolver use the same 'last level and last_all_atom' predicate (linear normal form); hand-over of fine graph to coarse graph, names, "
      "level dictionary, counter advanced once after last use; resolve_iter / resolve_all only delegate",
      "isomorphism with the flattened two-level string; per-step guarantees are decided under C02/C03",
      floors={"OWN.fresh-fragment": 2, "ORD.resolve-phases": 10, "SIB.S4-atomistic-level": 4, "ORD.resolve-handover": 4, "SIB.S7-drivers": 3, "PROV.level-index": 2, "ORD.counter": 1})
-prop("C07", ["da_writer", "tab_writer_symbols", "emit_write_graph", "prov_ring_edges", "sent_order_zero", "prov_option_forwarding", "prov_after_branch_order"],
+prop("C07", ["det_loop_state_writer", "da_writer", "tab_writer_symbols", "emit_write_graph", "prov_ring_edges", "sent_order_zero", "prov_option_forwarding", "prov_after_branch_order"],
      "writer table restricted to 0..4 is the inverse of the reader's table and the documented one; per-node and per-ring emission words over all "
      "guard assignments: tree-edge symbol present iff needed and placed where the reader of that format looks (before '(' in CGsmiles, inside in "
      "OpenSMILES), ring symbol immediately before a new marker iff needed, independent of the node-format flag",
      "that the reader reconstructs the graph from a string of the documented language (C04), DFS and ring-marker allocation, more than 9 open rings",
-     floors={"DA.writer": 6, "EMIT.marker-order": 1, "PROV.ring-marker": 2, "PROV.ring-edges": 5, "TAB.writer-symbols": 2, "EMIT.write_graph": 2, "SIB.S5-format-flag": 1})
+     floors={"DET.loop-state": 2, "DA.writer": 6, "EMIT.marker-order": 1, "PROV.ring-marker": 2, "PROV.ring-edges": 5, "TAB.writer-symbols": 2, "EMIT.write_graph": 2, "SIB.S5-format-flag": 1})
 prop("C08", ["ring_marker_text", "tt_layer_format", "da_writer", "emit_format_bonding", "tab_fragment_symbols", "tok_rules", "emit_write_graph", "prov_option_forwarding"],
      "format_bonding only ever extends its accumulator and writes SYM? '[' descriptor[:-1] ']' per descriptor with the symbol of its own order for "
      "orders 0, 2, 3, 4; the fragment reader maps every written symbol back to its order; the tokenizer's descriptor rules incl. `is not None` for the pending order",
@@ -212,7 +221,7 @@ prop("C09", ["ord_resolve_phases", "ord_sample_finalise", "ord_hydrogens", "tab_
      "reset hcount to 0 < fill_valence(respect_hcount=False) < add_explicit_hydrogens, aromatic correction < fill; keep_bonding unused; hydrogens inherit attributes",
      "the numbers themselves (valence lists, charges, aromatic correction) are pysmiles'",
      floors={"SENT.numeric-attribute": 30, "ORD.resolve-phases": 10, "ORD.sample-finalise": 5, "ORD.hydrogens": 9, "TAB.copy_attrs": 3, "PROV.h-inherit": 3})
-prop("C10", ["prov_squash", "ord_resolve_phases", "prov_bond_edge", "tt_compatible"],
+prop("C10", ["ord_hydrogens", "prov_squash", "ord_resolve_phases", "prov_bond_edge", "tt_compatible"],
      "contraction exactly for '!' pairs (truth table over kinds); merged nodes are the bond's endpoints followed through earlier merges, the removed node is "
      "recorded; self_loops=False; result assigned back; kept node's fragid/mapping extended on every path; connect < squash < hydrogens; the pair is recorded on the bond",
      "equivalence with the disjoint description; aromaticity and hydrogen refill on the merged graph",
@@ -229,30 +238,30 @@ prop("C12", ["own_templates_resolver", "own_mutable_defaults", "det_resolver", "
      "fragment dictionaries are only accessed by key; atom names are element + position within the coarse node's atom list",
      "contiguity of blocks; determinism of pysmiles itself is assumed; shared atoms are named once per coarse node they belong to",
      floors={"DET.shared-state": 15, "OWN.templates-resolver": 10, "OWN.mutable-defaults": 8, "DET.resolver": 15, "SIB.S1-constructors": 9, "PROV.sort-key": 4, "PROV.fragdict-by-key": 2, "PROV.atom-names": 2})
-prop("C13", ["tok_rules", "tab_dialects", "tab_fragment_symbols", "ord_parse_pipeline", "sent_annotation_value"],
+prop("C13", ["det_loop_state_tok", "det_shared_state_reader", "tok_rules", "tab_dialects", "tab_fragment_symbols", "ord_parse_pipeline", "sent_annotation_value"],
      "dispatch map and per-branch effects of the tokenizer: T0 text conservation, T1 symbols set the pending order, T2 ring digits go to the previous atom "
      "and clear the pending order, T3 atoms advance (previous := counter; counter += 1) and clear it, annotations under the pre-increment index, T4 "
      "branch stack, T5 descriptor text / atom / order sources / consume, T6 slashes, and the invariant over admissible token successions",
      "anything about the cleaned text being valid SMILES; `( symbol descriptor )` leaves an empty branch",
-     floors={"ORD.parse-pipeline": 3, "TAB.fragment-symbols": 2, "TOK.T0-conservation": 3, "TOK.T1-symbol": 1, "TOK.T2-ring": 2, "TOK.T3-atom": 6, "TOK.T4-branch": 2, "TOK.T5-descriptor": 8,
+     floors={"DET.loop-state": 2, "DET.shared-state": 8, "ORD.parse-pipeline": 3, "TAB.fragment-symbols": 2, "TOK.T0-conservation": 3, "TOK.T1-symbol": 1, "TOK.T2-ring": 2, "TOK.T3-atom": 6, "TOK.T4-branch": 2, "TOK.T5-descriptor": 8,
              "TOK.T6-slash": 1, "TOK.invariant": 1, "SENT.pending-order": 1})
-prop("C14", ["tab_dialects", "ord_parse_pipeline", "prov_node_attributes", "prov_copy_complete", "exc_annotations", "prov_h_inherit", "sent_numeric_attrs", "ord_complete_loops", "sent_annotation_value", "prov_fragment_attrs"],
+prop("C14", ["det_shared_state_reader", "tab_dialects", "ord_parse_pipeline", "prov_node_attributes", "prov_copy_complete", "exc_annotations", "prov_h_inherit", "sent_numeric_attrs", "ord_complete_loops", "sent_annotation_value", "prov_fragment_attrs"],
      "both dialect signatures, defaults, types, rename maps equal the documented table; bind < cast < defaults, cast < rename, cast keyed by name over all "
      "bound arguments; base-graph node attributes come from the node's own text (also for multiplied copies and recipes); fragment copies keep all attributes",
      "numeric spellings (python's float); `q=` at the coarse-fragment level is parsed by the atomistic dialect (seen while reading, outside the rules)",
-     floors={"SENT.annotation-value": 2, "PROV.fragment-attrs": 2, "SENT.numeric-attribute": 30, "SENT.attribute-value": 1, "TAB.dialects": 3, "ORD.parse-pipeline": 6, "PROV.node-attributes": 4, "PROV.copy-complete": 5})
-prop("C15", ["tt_relative_dispatch", "prov_slash_marks", "ord_resolve_stereo", "prov_relative_attr", "tok_rules", "prov_copy_complete"],
+     floors={"DET.shared-state": 8, "SENT.annotation-value": 2, "PROV.fragment-attrs": 2, "SENT.numeric-attribute": 30, "SENT.attribute-value": 1, "TAB.dialects": 3, "ORD.parse-pipeline": 6, "PROV.node-attributes": 4, "PROV.copy-complete": 5})
+prop("C15", ["prov_fragment_attrs", "tt_relative_dispatch", "prov_slash_marks", "ord_resolve_stereo", "prov_relative_attr", "tok_rules", "prov_copy_complete"],
      "the cis/trans annotation runs after the last relabelling and after hydrogens exist, on the relabelled graph; node-referencing attributes are "
      "remapped through the relabelling map and shifted on merge; slash marks are recorded for the atoms around them; chirality annotations are copied",
      "the cis/trans relation itself (pysmiles' _annotate_ez_isomers)",
      floors={"TT.relative-dispatch": 1, "PROV.slash-marks": 4, "ORD.resolve-stereo": 3, "PROV.relative-attr": 3, "TOK.T6-slash": 1})
-prop("C16", ["prov_sampler_setup", "da_self_attrs_sampler", "da_sampler", "tt_complement", "prov_growth_edge", "prov_open_bonds", "own_templates_sampler", "ord_sample_finalise", "prov_sort_key", "det_shared_state_sampler"],
+prop("C16", ["det_loop_state_sampler", "prov_sampler_setup", "da_self_attrs_sampler", "da_sampler", "tt_complement", "prov_growth_edge", "prov_open_bonds", "own_templates_sampler", "ord_sample_finalise", "prov_sort_key", "det_shared_state_sampler"],
      "complementarity relation over 160 abstract states; growth step: one merge and one bond on every path, bond between chosen site atom and the copy of "
      "the partner's atom, order and recorded pair from the chosen descriptors, both descriptors consumed on their own atoms; templates are never mutated "
      "and their attribute values never shared into the molecule; the open-descriptor index is rebuilt from the molecule before every step and files each "
      "atom under its own descriptors, the fragment index maps a descriptor to (fragment, atom) carrying it; finalisation order",
      "connectedness / tree shape follow by induction that is not mechanised; valence completeness as C09",
-     floors={"PROV.sampler-setup": 7, "DA.self-attrs": 7, "DA.sampler": 9, "TT.complement": 1, "PROV.growth-edge": 6, "PAIR.sampler-consume": 2, "PROV.open-bonds": 6, "OWN.templates-sampler": 5, "ORD.sample-finalise": 5})
+     floors={"DET.loop-state": 2, "PROV.sampler-setup": 7, "DA.self-attrs": 7, "DA.sampler": 9, "TT.complement": 1, "PROV.growth-edge": 6, "PAIR.sampler-consume": 2, "PROV.open-bonds": 6, "OWN.templates-sampler": 5, "ORD.sample-finalise": 5})
 prop("C17", ["tt_order_defaults", "own_mutable_defaults_sampler", "prov_sampler_setup", "da_self_attrs_sampler", "ord_complete_loops_mass", "da_sampler", "prov_stop_rule", "prov_weights", "tt_terminal_filter", "det_sampler", "ord_compute_mass", "det_shared_state_sampler"],
      "stop rule `sum < target` strict, sum starts at 0 and grows by the added fragment's mass on every iteration; weights are probabilities.get(b, 0) over the "
      "same sequence, unweighted draw only without table; terminal filter truth table; every draw is random.* on ordered populations, seeded on every path "
@@ -269,7 +278,7 @@ prop("C19", ["det_shared_state_layout", "null_guard_layout", "da_layout", "key_l
      "may write positions afterwards; the rescaled dict is returned",
      "finiteness, non-coincidence of bonded nodes, independence from labelling: numerical properties of networkx' optimisers",
      floors={"DET.shared-state": 5, "NULL.optional-param": 1, "DA.layout": 21, "KEY.K3-layout": 4, "OWN.layout-input": 1, "OWN.mutable-defaults": 2, "NORM.scale": 2, "ORD.scale-last": 2})
-prop("C20", ["ring_marker_text", "da_resolver", "exc_dangling_ring", "sib_ring_handlers", "exc_duplicate_edge", "exc_missing_fragment", "exc_annotations", "exc_handlers", "tab_dialects"],
+prop("C20", ["tok_rules", "ring_marker_text", "da_resolver", "exc_dangling_ring", "sib_ring_handlers", "exc_duplicate_edge", "exc_missing_fragment", "exc_annotations", "exc_handlers", "tab_dialects"],
      "each documented fault has a raise site of the documented type whose guard dominates the success exit; the open-ring table is written only by the two "
      "identical handlers; no handler between fault site and API swallows or retypes the error; numeric keys are declared float",
      "that the scanner reaches the fault wherever it is placed (C04's undecided part)",
